@@ -117,9 +117,29 @@ def _cleanup_home(h):
     shutil.rmtree(h, ignore_errors=True)
 
 
-def signer_home():
-    """Per-process GNUPGHOME holding the secret test keys."""
+def cleanup_all():
+    """Kill the agent of, and remove, every signer home this process created."""
     global _signer_home
+    for h, pid in list(_created):
+        if pid != os.getpid():
+            continue          # inherited through fork: belongs to the parent
+        _cleanup_home(h)
+        _created.remove((h, pid))
+        if _signer_home == h:
+            _signer_home = None
+
+
+_created = []
+
+
+def signer_home():
+    """GNUPGHOME holding the secret test keys.  The batch parent creates one and hands it to its
+    workers through VERIF_SIGNER_HOME (gpg-agent serves concurrent clients); a process that finds
+    none creates its own and removes it in cleanup_all()."""
+    global _signer_home
+    shared = os.environ.get('VERIF_SIGNER_HOME')
+    if shared and os.path.isdir(shared):
+        return shared
     if _signer_home is None or not os.path.isdir(_signer_home) or getattr(signer_home, 'pid', None) != os.getpid():
         h = tempfile.mkdtemp(prefix='vgpg.', dir=scratch_base())
         os.chmod(h, 0o700)
@@ -131,7 +151,8 @@ def signer_home():
                        env=dict(os.environ, GNUPGHOME=h), capture_output=True, check=True, timeout=60)
         _signer_home = h
         signer_home.pid = os.getpid()
-        atexit.register(_cleanup_home, h)
+        _created.append((h, os.getpid()))
+        atexit.register(cleanup_all)
     return _signer_home
 
 
